@@ -426,6 +426,10 @@ func makeObjectIsVariadicParamFilter(src, varname string) filterFunc {
 func makeObjectIsGlobalFilter(src, varname string) filterFunc {
 	return func(params *filterParams) matchFilterResult {
 		obj := params.ctx.Types.ObjectOf(identOf(params.subExpr(varname)))
+		if obj == nil {
+			// Not an identifier (or an identifier that denotes no object).
+			return filterFailure(src)
+		}
 		globalScope := params.ctx.Pkg.Scope()
 		if obj.Parent() == globalScope {
 			return filterSuccess
